@@ -4,7 +4,7 @@
 //! interleaved with the chain stages.
 use crate::bigmath;
 use crate::exec::compare_state;
-use crate::model::{occupied, Cfg, Recipe, World, SHANNONS};
+use crate::model::{always_failure_bin, always_success_bin, occupied, Cfg, MCell, MTx, Recipe, World, SHANNONS};
 use crate::node::Node;
 use ckb_app_config::{BlockAssemblerConfig, NetworkConfig, TxPoolConfig};
 use ckb_jsonrpc_types::ScriptHashType;
@@ -51,9 +51,62 @@ pub struct TxSpec {
     pub salt: u64,
 }
 
+/// C04: where the probe transaction's first input comes from (resolved against the context at probe time)
+#[derive(Clone, Debug, Serialize, Deserialize, PartialEq)]
+pub enum CandIn {
+    /// k-th live plain cell on the main chain (always-success lock, not a cellbase output)
+    Live(usize),
+    /// k-th live cell whose lock runs the program carried in witness 0
+    WLock(usize),
+    /// cellbase output at the maturity boundary: 0 = the newest mature one, 1 = the oldest immature one
+    CellbaseAt(u8),
+    /// k-th cell already spent on the main chain
+    Dead(usize),
+    /// an out point nobody created
+    Unknown,
+    /// output `o` of scenario transaction `t` (pooled, committed, or neither)
+    TxOut(usize, usize),
+}
+
+/// C04: one probe transaction; at most one field is set to a rule-breaking value
+#[derive(Clone, Debug, Serialize, Deserialize, PartialEq)]
+pub struct Cand {
+    pub input: CandIn,
+    /// (kind, delta): kind 0-2 absolute number/epoch/median-time, 3-5 relative ditto, value placed
+    /// `delta` units after (+) or before (-) the exact boundary of the evaluation position;
+    /// 6 = metric flag 0b11, 7 = reserved flag bit set, 8/9 = malformed epoch fraction (absolute/relative), 10 = zero-length fraction
+    #[serde(default)]
+    pub since: Option<(u8, i64)>,
+    /// 0 fee 5000; 1 outputs exceed inputs by one shannon; 2 an output exactly at its occupied size;
+    /// 3 one shannon below the occupied size; 4 zero fee (block path only)
+    #[serde(default)]
+    pub cap: u8,
+    /// extra cell dep: 0 none, 1 a live cell, 2 a spent cell, 3 unknown, 4 the oldest immature cellbase output
+    #[serde(default)]
+    pub dep: u8,
+    /// header dep: 0 none, 1 a main-chain header, 2 a header of a delivered block off the main chain, 3 unknown
+    #[serde(default)]
+    pub hdep: u8,
+    /// for WLock inputs: witness 0 carries always_failure instead of always_success
+    #[serde(default)]
+    pub fail_script: bool,
+    /// the first input appears twice
+    #[serde(default)]
+    pub dup: bool,
+    /// a second, plain live input
+    #[serde(default)]
+    pub second: Option<usize>,
+    pub salt: u64,
+}
+
 #[derive(Clone, Debug, Serialize, Deserialize, PartialEq)]
 #[serde(tag = "op")]
 pub enum POp {
+    /// C04: ask the pool (dry run, `test_accept_transaction`) about a probe transaction at a quiescent point
+    ProbePool { cand: Cand },
+    /// C04: the model proposes the probe on top of the tip and commits it at the first legal block;
+    /// the node's block verification gives the verdict
+    ProbeBlock { cand: Cand },
     /// start a submission task for scenario tx t (local: verified inline; remote: queued for a worker)
     Submit { t: usize, remote: bool },
     /// start one verify-worker iteration task
@@ -94,6 +147,11 @@ pub fn generate(seed: u64, prop: &str) -> PoolScenario {
     let mut r = Rng::new(seed ^ 0x9001_0000);
     let mut cfg = crate::scen::gen_cfg(&mut r);
     cfg.genesis_cells = (0..r.urange(8, 16)).map(|_| r.range(3_000, 60_000) * SHANNONS).collect();
+    if prop == "C04" {
+        cfg.maturity = *r.pick(&[(0u64, 0u64, 1u64), (0, 1, 2), (1, 0, 1), (0, 3, 4), (2, 1, 3)]);
+        cfg.wlock_cells = r.urange(2, 4);
+        cfg.genesis_cells.extend((0..6).map(|_| r.range(3_000, 60_000) * SHANNONS));
+    }
     let small_pool = r.chance(1, 3);
     let pool = PoolCfg {
         max_tx_pool_size: if small_pool { r.urange(1_500, 6_000) } else { 180_000_000 },
@@ -172,10 +230,117 @@ pub fn generate(seed: u64, prop: &str) -> PoolScenario {
             _ => ops.push(POp::Expire),
         }
     }
+    if prop == "C04" {
+        // probes at arbitrary points of the history (the pool is brought to rest before each)
+        let k = r.urange(8, 30);
+        for _ in 0..k {
+            let at = r.idx(ops.len() + 1);
+            let cand = gen_cand(&mut r, ntx);
+            if r.chance(2, 5) {
+                ops.insert(at, POp::ProbeBlock { cand });
+            } else {
+                ops.insert(at, POp::ProbePool { cand });
+            }
+        }
+    }
     PoolScenario { engine: "simnode".into(), kind: "pool".into(), prop: prop.into(), seed, cfg, pool, txs, ops }
 }
 
+pub fn gen_cand(r: &mut Rng, ntx: usize) -> Cand {
+    let mut c = Cand { input: CandIn::Live(r.idx(64)), since: None, cap: 0, dep: 0, hdep: 0, fail_script: false, dup: false, second: None, salt: r.below(1 << 40) };
+    let delta = |r: &mut Rng| *r.pick(&[-1i64, 0, 0, 1, 1, 3]);
+    match r.below(14) {
+        0 => {}
+        1 | 2 | 3 => {
+            // time locks at the boundary of the evaluation position
+            c.since = Some((r.below(6) as u8, delta(r)));
+            if r.chance(1, 4) {
+                c.input = CandIn::CellbaseAt(0);
+            }
+        }
+        4 => c.since = Some((*r.pick(&[6u8, 7, 8, 9, 10]), delta(r))),
+        5 => {
+            c.input = match r.below(4) {
+                0 => CandIn::Dead(r.idx(64)),
+                1 => CandIn::Unknown,
+                _ => CandIn::TxOut(r.idx(ntx.max(1)), r.idx(3)),
+            }
+        }
+        6 => c.dup = true,
+        7 | 8 => c.input = CandIn::CellbaseAt(r.below(2) as u8),
+        9 => c.cap = r.range(1, 4) as u8,
+        10 => c.dep = r.range(1, 4) as u8,
+        11 => c.hdep = r.range(1, 3) as u8,
+        12 => {
+            c.input = CandIn::WLock(r.idx(8));
+            c.fail_script = r.chance(1, 2);
+        }
+        _ => c.second = Some(r.idx(64)),
+    }
+    c
+}
+
+/// C04: the position a transaction is evaluated at
+#[derive(Clone, Debug)]
+pub struct C04Env {
+    pub number: u64,
+    pub epoch: (u64, u64, u64),
+    /// median time of the blocks ending at the parent of the position
+    pub median_ms: u64,
+    pub ts_by_number: Vec<u64>,
+    pub main_hashes: Vec<Byte32>,
+}
+
+#[derive(Clone, Debug)]
+pub struct CInfo {
+    pub cell: MCell,
+    /// false: created by a pooled transaction (no block yet)
+    pub on_chain: bool,
+}
+
+fn frac((n, i, l): (u64, u64, u64)) -> (u128, u128) {
+    if l == 0 { (n as u128, 1) } else { ((n as u128) * (l as u128) + i as u128, l as u128) }
+}
+fn efrac(e: &ckb_types::core::EpochNumberWithFraction) -> (u128, u128) {
+    frac((e.number(), e.index(), e.length()))
+}
+fn ratio_add(a: (u128, u128), b: (u128, u128)) -> (u128, u128) {
+    (a.0 * b.1 + b.0 * a.1, a.1 * b.1)
+}
+fn ratio_ge(a: (u128, u128), b: (u128, u128)) -> bool {
+    a.0 * b.1 >= b.0 * a.1
+}
+fn live_or(chain: &BTreeMap<OutPoint, MCell>, live: &BTreeMap<OutPoint, CInfo>, op: &OutPoint) -> Option<u64> {
+    chain.get(op).map(|c| c.capacity()).or_else(|| live.get(op).map(|c| c.cell.capacity()))
+}
+fn cand_dim(c: &Cand) -> String {
+    let mut v = Vec::new();
+    if let Some((k, d)) = c.since {
+        v.push(format!("since{k}d{d}"));
+    }
+    if c.cap != 0 {
+        v.push(format!("cap{}", c.cap));
+    }
+    if c.dep != 0 {
+        v.push(format!("dep{}", c.dep));
+    }
+    if c.hdep != 0 {
+        v.push(format!("hdep{}", c.hdep));
+    }
+    v.push(match &c.input {
+        CandIn::Live(_) => "live".to_string(),
+        CandIn::WLock(_) => "wlock".to_string(),
+        CandIn::CellbaseAt(d) => format!("cellbase{d}"),
+        CandIn::Dead(_) => "dead".to_string(),
+        CandIn::Unknown => "unknown".to_string(),
+        CandIn::TxOut(..) => "txout".to_string(),
+    });
+    v.join("+")
+}
+
 // ------------------------------------------------------------------ execution
+
+static VERIFY_PANICKED: std::sync::atomic::AtomicBool = std::sync::atomic::AtomicBool::new(false);
 
 struct Task {
     name: String,
@@ -279,7 +444,14 @@ impl PoolExec {
         let net = dummy_network(&node.shared, dir);
         let pool = node.pack.take_tx_pool_builder().verif_into_sim(net.clone());
         let g0 = w.blocks[0].view.clone();
-        let genesis_outs = g0.transactions().iter().skip(1).map(|t| OutPoint::new(t.hash(), 0)).collect();
+        // plain genesis cells only (witness-locked ones need their program in witness 0)
+        let genesis_outs = g0
+            .transactions()
+            .iter()
+            .skip(1)
+            .filter(|t| t.outputs().get(0).map(|o| o.lock().code_hash() == w.code_hash).unwrap_or(false))
+            .map(|t| OutPoint::new(t.hash(), 0))
+            .collect();
         let ntx = sc.txs.len();
         Ok(PoolExec {
             res: RunResult { seed: sc.seed, ..Default::default() },
@@ -497,8 +669,17 @@ impl PoolExec {
                         }
                         std::thread::sleep(std::time::Duration::from_micros(40));
                     }
-                    let _ = h.join();
+                    if h.join().is_err() {
+                        VERIFY_PANICKED.store(true, std::sync::atomic::Ordering::SeqCst);
+                    }
                 });
+                if VERIFY_PANICKED.swap(false, std::sync::atomic::Ordering::SeqCst) {
+                    let msg = crate::LAST_PANIC.lock().unwrap().clone().unwrap_or_default();
+                    let prop = self.sc.prop.clone();
+                    self.res.faults.inc("node_panic");
+                    self.viol(&prop, &format!("node_panic:{}", msg.split(" | ").next().unwrap_or("")), format!("the chain verify stage panicked: {msg}"));
+                    return;
+                }
                 // messages sent at the very end of the verify step
                 while let Some((kind, mut fut)) = self.pool.next_message() {
                     if kind == "update_ibd_state" {
@@ -557,6 +738,10 @@ impl PoolExec {
                 self.viol(&prop, &format!("node_panic:{}", msg.split(" | ").next().unwrap_or("")), format!("panic during final quiesce: {}", msg));
             }
         }
+        if self.res.violation.is_some() {
+            // a harness complaint that follows a violation (e.g. no verdict after a node panic) is its consequence
+            self.res.harness_error = None;
+        }
         self.res.probes.add("stale_templates_not_verified", self.stale_templates);
         self.res.log_hash = self.log.finish();
         self.res.interleaving = self.il.finish();
@@ -566,6 +751,16 @@ impl PoolExec {
 
     fn step(&mut self, op: &POp) {
         match op {
+            POp::ProbePool { cand } => {
+                self.il.write_u64(0x30);
+                self.quiesce();
+                self.c04_probe_pool(cand);
+            }
+            POp::ProbeBlock { cand } => {
+                self.il.write_u64(0x31);
+                self.quiesce();
+                self.c04_probe_block(cand);
+            }
             POp::Submit { t, remote } => {
                 self.il.write_u64(0x100 + *t as u64 * 2 + *remote as u64);
                 let Some(tx) = self.tx(*t) else { return };
@@ -795,6 +990,508 @@ impl PoolExec {
             self.res.nontrivial = true;
         }
         self.ev(&format!("fork back={back} len={len} -> tip #{}", self.tip_idx));
+    }
+
+    // ------------------------------------------------------------------ C04
+
+    fn c04_chain_env(&self, chain: &[usize], number: u64, epoch: (u64, u64, u64)) -> C04Env {
+        C04Env {
+            number,
+            epoch,
+            median_ms: self.w.median_time(chain),
+            ts_by_number: chain.iter().map(|i| self.w.blocks[*i].view.timestamp()).collect(),
+            main_hashes: chain.iter().map(|i| self.w.blocks[*i].view.hash()).collect(),
+        }
+    }
+
+    fn c04_chain_live(&self, cells: &BTreeMap<OutPoint, MCell>) -> BTreeMap<OutPoint, CInfo> {
+        cells.iter().map(|(k, v)| (k.clone(), CInfo { cell: v.clone(), on_chain: true })).collect()
+    }
+
+    /// outputs spent on the main chain `chain` (sorted)
+    fn c04_dead(&self, chain: &[usize]) -> Vec<OutPoint> {
+        let mut v = Vec::new();
+        for i in chain {
+            for tx in self.w.blocks[*i].view.transactions().iter().skip(1) {
+                for inp in tx.inputs().into_iter() {
+                    v.push(inp.previous_output());
+                }
+            }
+        }
+        v.sort();
+        v
+    }
+
+    /// Build the probe transaction for this context. None = the context offers nothing to build it from.
+    fn c04_build(&mut self, cand: &Cand, env: &C04Env, live: &BTreeMap<OutPoint, CInfo>, chain: &[usize]) -> Option<TransactionView> {
+        let code_hash = self.w.code_hash.clone();
+        let wcode_hash = self.w.wcode_hash.clone();
+        let g0 = self.w.blocks[0].view.transactions()[0].hash();
+        let plain: Vec<(&OutPoint, &CInfo)> = live
+            .iter()
+            .filter(|(op, c)| c.on_chain && c.cell.output.lock().code_hash() == code_hash && c.cell.output.type_().is_none() && !(c.cell.is_cellbase() && c.cell.block_number > 0) && op.tx_hash() != g0 && c.cell.capacity() >= 300 * SHANNONS)
+            .collect();
+        let maturity = self.w.cfg.maturity;
+        let mature = |c: &MCell| ratio_ge(frac(env.epoch), ratio_add(efrac(&c.block_epoch), frac(maturity)));
+        let mut cellbases: Vec<(&OutPoint, &CInfo)> = live.iter().filter(|(_, c)| c.on_chain && c.cell.is_cellbase() && c.cell.block_number > 0 && c.cell.capacity() >= 300 * SHANNONS).collect();
+        cellbases.sort_by_key(|(_, c)| c.cell.block_number);
+        let newest_mature = cellbases.iter().filter(|(_, c)| mature(&c.cell)).last().cloned();
+        let oldest_immature = cellbases.iter().find(|(_, c)| !mature(&c.cell)).cloned();
+        let dead = self.c04_dead(chain);
+        let mut r = Rng::new(cand.salt);
+        // (out point, capacity, lock is wlock, info if live)
+        let first: (OutPoint, u64, bool, Option<CInfo>) = match &cand.input {
+            CandIn::Live(k) => {
+                if plain.is_empty() {
+                    return None;
+                }
+                let (op, c) = plain[k % plain.len()];
+                (op.clone(), c.cell.capacity(), false, Some(c.clone()))
+            }
+            CandIn::WLock(k) => {
+                let w: Vec<(&OutPoint, &CInfo)> = live.iter().filter(|(_, c)| c.on_chain && c.cell.output.lock().code_hash() == wcode_hash).collect();
+                if w.is_empty() {
+                    return None;
+                }
+                let (op, c) = w[k % w.len()];
+                (op.clone(), c.cell.capacity(), true, Some(c.clone()))
+            }
+            CandIn::CellbaseAt(d) => {
+                let pick = if *d == 0 { newest_mature } else { oldest_immature };
+                let (op, c) = pick?;
+                (op.clone(), c.cell.capacity(), false, Some(c.clone()))
+            }
+            CandIn::Dead(k) => {
+                if dead.is_empty() {
+                    return None;
+                }
+                (dead[k % dead.len()].clone(), 1_000 * SHANNONS, false, None)
+            }
+            CandIn::Unknown => (OutPoint::new(ckb_hash::blake2b_256(cand.salt.to_le_bytes()).pack(), 0), 1_000 * SHANNONS, false, None),
+            CandIn::TxOut(t, o) => {
+                let t = *t % self.sc.txs.len().max(1);
+                let p = self.tx(t)?;
+                let o = *o % p.outputs().len().max(1);
+                let out = p.outputs().get(o)?;
+                let c: Capacity = out.capacity().into();
+                let op = OutPoint::new(p.hash(), o as u32);
+                let info = live.get(&op).cloned();
+                (op, c.as_u64(), false, info)
+            }
+        };
+        let mut total = first.1;
+        // since for input 0
+        let since: u64 = match cand.since {
+            None => 0,
+            Some((kind, delta)) => {
+                let add = |v: u64| -> u64 { if delta >= 0 { v.saturating_add(delta as u64) } else { v.saturating_sub((-delta) as u64) } };
+                let pack_epoch = |(n, i, l): (u64, u64, u64)| -> u64 { (n & 0xff_ffff) | ((i & 0xffff) << 24) | ((l & 0xffff) << 40) };
+                let shift_epoch = |(n, i, l): (u64, u64, u64), d: i64| -> (u64, u64, u64) {
+                    let l2 = l.max(1);
+                    let tot = (n * l2 + i) as i64 + d;
+                    if tot < 0 { (0, 0, l2) } else { ((tot as u64) / l2, (tot as u64) % l2, l2) }
+                };
+                const REL: u64 = 1 << 63;
+                const M_EPOCH: u64 = 1 << 61;
+                const M_TS: u64 = 1 << 62;
+                let cell = first.3.as_ref().filter(|c| c.on_chain).map(|c| c.cell.clone());
+                match kind {
+                    0 => add(env.number) & 0x00ff_ffff_ffff_ffff,
+                    1 => M_EPOCH | pack_epoch(shift_epoch(env.epoch, delta)),
+                    2 => M_TS | (add(env.median_ms / 1000) & 0x00ff_ffff_ffff_ffff),
+                    3 => {
+                        let base = cell.as_ref().map(|c| c.block_number).unwrap_or(0);
+                        REL | (add(env.number.saturating_sub(base)) & 0x00ff_ffff_ffff_ffff)
+                    }
+                    4 => {
+                        let c = cell.as_ref().map(|c| (c.block_epoch.number(), c.block_epoch.index(), c.block_epoch.length())).unwrap_or((0, 0, 1));
+                        // v with cell_epoch + v == env.epoch exactly when representable, then shifted by delta steps of 1/q
+                        let (en, ed) = frac(env.epoch);
+                        let (cn, cd) = frac(c);
+                        let q = ed * cd;
+                        let diff = (en * cd).saturating_sub(cn * ed); // over q
+                        if q <= 0xffff {
+                            let tot = diff as i128 + delta as i128;
+                            let tot = tot.max(0) as u128;
+                            REL | M_EPOCH | pack_epoch(((tot / q) as u64, (tot % q) as u64, q as u64))
+                        } else {
+                            let k = (diff / q) as i64 + delta.max(0);
+                            REL | M_EPOCH | pack_epoch((k.max(0) as u64, 0, 1))
+                        }
+                    }
+                    5 => {
+                        let base = cell.as_ref().map(|c| env.ts_by_number.get(c.block_number as usize).cloned().unwrap_or(0)).unwrap_or(0);
+                        REL | M_TS | (add(env.median_ms.saturating_sub(base) / 1000) & 0x00ff_ffff_ffff_ffff)
+                    }
+                    6 => M_EPOCH | M_TS | 0,
+                    7 => (1u64 << (56 + (cand.salt % 5))) | 1,
+                    8 => M_EPOCH | pack_epoch((0, 3 + cand.salt % 4, 3)),
+                    9 => REL | M_EPOCH | pack_epoch((0, 3 + cand.salt % 4, 3)),
+                    _ => M_EPOCH | pack_epoch((shift_epoch(env.epoch, delta).0, 0, 0)),
+                }
+            }
+        };
+        let mut tb = TransactionBuilder::default().cell_dep(self.w.code_dep.clone());
+        tb = tb.input(CellInput::new(first.0.clone(), since));
+        if cand.dup {
+            tb = tb.input(CellInput::new(first.0.clone(), 0));
+        }
+        if let Some(k) = cand.second {
+            let others: Vec<&(&OutPoint, &CInfo)> = plain.iter().filter(|(op, _)| **op != first.0).collect();
+            if !others.is_empty() {
+                let (op, c) = others[k % others.len()];
+                total += c.cell.capacity();
+                tb = tb.input(CellInput::new((*op).clone(), 0));
+            }
+        }
+        if first.2 {
+            let prog = if cand.fail_script { always_failure_bin() } else { always_success_bin() };
+            tb = tb.cell_dep(self.w.wcode_dep.clone()).witness(prog.pack());
+        } else {
+            tb = tb.witness(Bytes::from(cand.salt.to_le_bytes().to_vec()).pack());
+        }
+        // extra cell dep
+        let used = |op: &OutPoint| *op == first.0 || *op == self.w.code_dep.out_point() || *op == self.w.wcode_dep.out_point();
+        match cand.dep {
+            1 => {
+                if let Some((op, _)) = plain.iter().rev().find(|(op, _)| !used(op)) {
+                    tb = tb.cell_dep(packed::CellDep::new_builder().out_point((*op).clone()).build());
+                }
+            }
+            2 => {
+                if let Some(op) = dead.iter().find(|op| !used(op) && !live.contains_key(*op)) {
+                    tb = tb.cell_dep(packed::CellDep::new_builder().out_point(op.clone()).build());
+                }
+            }
+            3 => {
+                tb = tb.cell_dep(packed::CellDep::new_builder().out_point(OutPoint::new(ckb_hash::blake2b_256((cand.salt ^ 0xdead).to_le_bytes()).pack(), 1)).build());
+            }
+            4 => {
+                if let Some((op, _)) = oldest_immature {
+                    if !used(op) {
+                        tb = tb.cell_dep(packed::CellDep::new_builder().out_point(op.clone()).build());
+                    }
+                }
+            }
+            _ => {}
+        }
+        match cand.hdep {
+            1 => {
+                let h = env.main_hashes[r.idx(env.main_hashes.len())].clone();
+                tb = tb.header_dep(h);
+            }
+            2 => {
+                let main: BTreeSet<&Byte32> = env.main_hashes.iter().collect();
+                let delivered: BTreeSet<Byte32> = self.node.verdicts.lock().unwrap().iter().map(|(h, _)| h.clone()).collect();
+                if let Some(h) = self.w.blocks.iter().map(|b| b.view.hash()).find(|h| !main.contains(h) && delivered.contains(h)) {
+                    tb = tb.header_dep(h);
+                }
+            }
+            3 => {
+                tb = tb.header_dep(ckb_hash::blake2b_256((cand.salt ^ 0xbeef).to_le_bytes()).pack());
+            }
+            _ => {}
+        }
+        // outputs
+        let lock = self.w.lock(&[(cand.salt % 5) as u8, 0x04]);
+        let o0 = CellOutput::new_builder().lock(lock).build();
+        let min = occupied(&o0, 0);
+        let fee = if cand.cap == 4 { 0 } else { 5_000 };
+        if total < 2 * min + fee + 2 {
+            return None;
+        }
+        let outs: Vec<u64> = match cand.cap {
+            1 => vec![total + 1],
+            2 => vec![min, total - fee - min],
+            3 => vec![min - 1, total - fee - (min - 1)],
+            _ => vec![total - fee],
+        };
+        for cap in outs {
+            tb = tb.output(o0.clone().as_builder().capacity(Capacity::shannons(cap)).build()).output_data(Bytes::new());
+        }
+        Some(tb.build())
+    }
+
+    /// C04 oracle, written from the property text and RFC 0017: are all transaction rules met by
+    /// `tx` at the position `env` given the live cells `live`?
+    fn c04_eval(&self, tx: &TransactionView, env: &C04Env, live: &BTreeMap<OutPoint, CInfo>) -> Result<(), String> {
+        let mut seen = BTreeSet::new();
+        let mut ins: Vec<(CInfo, u64)> = Vec::new();
+        for i in tx.inputs().into_iter() {
+            let op = i.previous_output();
+            if !seen.insert(op.clone()) {
+                return Err("input_listed_twice".into());
+            }
+            match live.get(&op) {
+                Some(c) => ins.push((c.clone(), i.since().into())),
+                None => return Err("input_not_live".into()),
+            }
+        }
+        let mut deps: Vec<CInfo> = Vec::new();
+        for d in tx.cell_deps().into_iter() {
+            match live.get(&d.out_point()) {
+                Some(c) => deps.push(c.clone()),
+                None => return Err("cell_dep_not_live".into()),
+            }
+        }
+        for h in tx.header_deps().into_iter() {
+            if !env.main_hashes.contains(&h) {
+                return Err("header_dep_not_on_main_chain".into());
+            }
+        }
+        let maturity = frac(self.w.cfg.maturity);
+        for c in ins.iter().map(|(c, _)| c).chain(deps.iter()) {
+            if c.on_chain && c.cell.block_number > 0 && c.cell.is_cellbase() && !ratio_ge(frac(env.epoch), ratio_add(efrac(&c.cell.block_epoch), maturity)) {
+                return Err("cellbase_immature".into());
+            }
+        }
+        for (c, since) in &ins {
+            let s = *since;
+            if s == 0 {
+                continue;
+            }
+            let flags = s >> 56;
+            if flags & 0x1f != 0 || (flags >> 5) & 3 == 3 {
+                return Err("since_malformed".into());
+            }
+            let relative = flags & 0x80 != 0;
+            let metric = (flags >> 5) & 3;
+            let value = s & 0x00ff_ffff_ffff_ffff;
+            if relative && !c.on_chain {
+                return Err("since_relative_to_unconfirmed_cell".into());
+            }
+            match metric {
+                0 => {
+                    let need = if relative { c.cell.block_number + value } else { value };
+                    if env.number < need {
+                        return Err("since_immature_number".into());
+                    }
+                }
+                1 => {
+                    let (n, i, l) = (value & 0xff_ffff, (value >> 24) & 0xffff, (value >> 40) & 0xffff);
+                    if !((l == 0 && i == 0) || i < l) {
+                        return Err("since_malformed_epoch".into());
+                    }
+                    let v = frac((n, i, l));
+                    let need = if relative { ratio_add(efrac(&c.cell.block_epoch), v) } else { v };
+                    if !ratio_ge(frac(env.epoch), need) {
+                        return Err("since_immature_epoch".into());
+                    }
+                }
+                _ => {
+                    let base = if relative { env.ts_by_number.get(c.cell.block_number as usize).cloned().unwrap_or(u64::MAX / 4) } else { 0 };
+                    if (env.median_ms as u128) < base as u128 + value as u128 * 1000 {
+                        return Err("since_immature_time".into());
+                    }
+                }
+            }
+        }
+        let in_sum: u128 = ins.iter().map(|(c, _)| c.cell.capacity() as u128).sum();
+        let mut out_sum: u128 = 0;
+        for (o, d) in tx.outputs_with_data_iter() {
+            let cap: Capacity = o.capacity().into();
+            out_sum += cap.as_u64() as u128;
+            if cap.as_u64() < occupied(&o, d.len()) {
+                return Err("output_below_occupied_size".into());
+            }
+        }
+        if in_sum < out_sum {
+            return Err("outputs_exceed_inputs".into());
+        }
+        // scripts: the simulated world has two lock programs
+        for (k, (c, _)) in ins.iter().enumerate() {
+            let ch = c.cell.output.lock().code_hash();
+            if ch == self.w.code_hash {
+                continue;
+            }
+            if ch == self.w.wcode_hash {
+                // runs the program in witness 0 (the probe has this input at index 0)
+                let prog = tx.witnesses().get(0).map(|w| w.raw_data());
+                if k == 0 && prog.as_ref() == Some(&always_success_bin()) {
+                    continue;
+                }
+                return Err("lock_script_fails".into());
+            }
+            return Err("unknown_lock".into());
+        }
+        Ok(())
+    }
+
+    fn c04_probe_pool(&mut self, cand: &Cand) {
+        if self.res.violation.is_some() || self.res.harness_error.is_some() {
+            return;
+        }
+        let d = self.dump();
+        let snap = self.node.shared.cloned_snapshot();
+        if d.snapshot_tip != snap.tip_hash() {
+            return;
+        }
+        let Some(ti) = self.w.by_hash.get(&snap.tip_hash()).cloned() else { return };
+        let st = self.w.st(ti).clone();
+        let tipv = self.w.blocks[ti].view.clone();
+        let e = tipv.epoch();
+        let env = self.c04_chain_env(&st.chain, tipv.number() + 1 + self.w.cfg.w_close, (e.number(), e.index(), e.length()));
+        // the pool's view: chain cells, plus pooled outputs, minus pooled inputs
+        let mut live = self.c04_chain_live(&st.cells);
+        let mut pool_spent: BTreeSet<OutPoint> = BTreeSet::new();
+        for en in &d.entries {
+            for (oi, (o, dt)) in en.tx.outputs_with_data_iter().enumerate() {
+                live.insert(
+                    OutPoint::new(en.tx.hash(), oi as u32),
+                    CInfo { cell: MCell { output: o, data: dt, block_hash: Byte32::zero(), block_number: 0, block_epoch: e, tx_index: 1 }, on_chain: false },
+                );
+            }
+        }
+        for en in &d.entries {
+            for i in en.tx.inputs().into_iter() {
+                live.remove(&i.previous_output());
+                pool_spent.insert(i.previous_output());
+            }
+        }
+        if cand.cap == 4 {
+            return; // zero fee: pool policy, not a transaction rule
+        }
+        let Some(tx) = self.c04_build(cand, &env, &live, &st.chain) else {
+            self.res.probes.inc("c04_probe_not_buildable");
+            return;
+        };
+        // a probe that conflicts with a pooled transaction is a replacement request (C11's business)
+        if tx.inputs().into_iter().any(|i| pool_spent.contains(&i.previous_output())) {
+            self.res.probes.inc("c04_probe_conflicts_with_pool");
+            return;
+        }
+        // ancestor limit is pool policy
+        let parents: BTreeSet<Byte32> = tx.inputs().into_iter().map(|i| i.previous_output().tx_hash()).chain(tx.cell_deps().into_iter().map(|c| c.out_point().tx_hash())).collect();
+        let anc: usize = d.entries.iter().filter(|en| parents.contains(&en.tx.hash())).map(|en| en.ancestors.0).sum();
+        if anc + 1 > d.limits.1 {
+            self.res.probes.inc("c04_probe_over_ancestor_limit");
+            return;
+        }
+        let want = self.c04_eval(&tx, &env, &live);
+        let got = self.run_value(self.pool.test_accept_tx(tx.clone()));
+        self.ev(&format!("probe_pool {:?} want={:?} got={:?}", cand, want, got.as_ref().map(|c| c.cycles).map_err(|e| e.to_string())));
+        self.res.probes.inc(if want.is_ok() { "c04_pool_probe_valid" } else { "c04_pool_probe_invalid" });
+        if let Err(w) = &want {
+            self.res.probes.inc(&format!("c04_pool:{w}"));
+        }
+        self.res.nontrivial = true;
+        match (&want, &got) {
+            (Ok(()), Err(e)) => self.viol("C04", &format!("pool_rejects_valid_tx:{}", cand_dim(cand)), format!("tip #{} n={}: probe {:?} meets every rule at the earliest commit position (number {}, epoch {:?}, median {}) but the pool answers {}", ti, tipv.number(), cand, env.number, env.epoch, env.median_ms, e)),
+            (Err(w), Ok(_)) => self.viol("C04", &format!("pool_accepts_invalid_tx:{w}"), format!("tip #{} n={}: probe {:?} breaks the rule '{}' at the earliest commit position (number {}, epoch {:?}, median {}) but the pool accepts it", ti, tipv.number(), cand, w, env.number, env.epoch, env.median_ms)),
+            _ => {}
+        }
+    }
+
+    fn c04_probe_block(&mut self, cand: &Cand) {
+        if self.res.violation.is_some() || self.res.harness_error.is_some() {
+            return;
+        }
+        let snap = self.node.shared.cloned_snapshot();
+        let Some(tip) = self.w.by_hash.get(&snap.tip_hash()).cloned() else { return };
+        let wc = self.w.cfg.w_close;
+        let mut r = Rng::new(cand.salt ^ 0xb10c);
+        let deltas: Vec<u64> = (0..=wc).map(|_| *r.pick(&[1u64, 500, 1_000, 4_000, 9_000, 30_000])).collect();
+        let seed0 = cand.salt << 8 ^ ((self.w.blocks.len() as u64) << 40);
+        // dry pass: the position the probe will be committed at
+        let n0 = self.w.blocks.len();
+        let mut p = tip;
+        for j in 0..wc {
+            p = self.w.build_plain(p, deltas[j as usize], seed0 + j, vec![], vec![]);
+        }
+        let pst = self.w.st(p).clone();
+        let ep = self.w.next_epoch(&pst);
+        let number = self.w.blocks[p].number + 1;
+        let f = ep.fraction(number);
+        let env = self.c04_chain_env(&pst.chain, number, (f.number(), f.index(), f.length()));
+        let mut live = self.c04_chain_live(&pst.cells);
+        let orig_chain: Vec<usize> = self.w.st(tip).chain.clone();
+        // header deps and spent cells are taken from blocks that exist for real
+        let mut env_build = self.c04_chain_env(&orig_chain, number, env.epoch);
+        env_build.median_ms = env.median_ms;
+        env_build.ts_by_number = env.ts_by_number.clone();
+        self.w.rollback_to(n0);
+        // an unconfirmed parent is committed earlier in the same block when it is valid there itself
+        let mut commit: Vec<TransactionView> = Vec::new();
+        if let CandIn::TxOut(t, _) = &cand.input {
+            let t = *t % self.sc.txs.len().max(1);
+            if let Some(ptx) = self.tx(t) {
+                if !pst.txs.contains_key(&ptx.hash()) {
+                    if self.c04_eval(&ptx, &env, &live).is_ok() {
+                        for i in ptx.inputs().into_iter() {
+                            live.remove(&i.previous_output());
+                        }
+                        for (oi, (o, dt)) in ptx.outputs_with_data_iter().enumerate() {
+                            live.insert(OutPoint::new(ptx.hash(), oi as u32), CInfo { cell: MCell { output: o, data: dt, block_hash: Byte32::zero(), block_number: number, block_epoch: f, tx_index: 1 }, on_chain: true });
+                        }
+                        commit.push(ptx);
+                    }
+                }
+            }
+        }
+        let mut c2 = cand.clone();
+        if !commit.is_empty() {
+            c2.since = None; // the creating block is the committing block
+        }
+        let Some(tx) = self.c04_build(&c2, &env_build, &live, &orig_chain) else {
+            self.res.probes.inc("c04_probe_not_buildable");
+            return;
+        };
+        let want = self.c04_eval(&tx, &env, &live);
+        commit.push(tx.clone());
+        // real pass
+        let ids: Vec<ProposalShortId> = commit.iter().map(|t| t.proposal_short_id()).collect();
+        let mut p = tip;
+        for j in 0..wc {
+            p = self.w.build_plain(p, deltas[j as usize], seed0 + j, if j == 0 { ids.clone() } else { vec![] }, vec![]);
+            let v = self.w.blocks[p].view.clone();
+            self.now = self.now.max(v.timestamp());
+            self.ft.set_faketime(self.now);
+            match self.deliver(&v) {
+                Some(Ok(_)) => {}
+                other => {
+                    self.res.harness_error = Some(format!("model-built proposing block rejected: {other:?}"));
+                    return;
+                }
+            }
+        }
+        let st_p = self.w.st(p).clone();
+        let mtxs: Vec<MTx> = commit
+            .iter()
+            .map(|t| {
+                let ins: u64 = t.inputs().into_iter().filter_map(|i| live_or(&st_p.cells, &live, &i.previous_output())).sum();
+                let outs: u64 = t.outputs().into_iter().map(|o| { let c: Capacity = o.capacity().into(); c.as_u64() }).sum();
+                MTx { tx: t.clone(), fee: ins.saturating_sub(outs), id: t.proposal_short_id() }
+            })
+            .collect();
+        let cb = self.w.build_plain(p, deltas[wc as usize], seed0 + wc, vec![], mtxs);
+        if want.is_err() {
+            self.w.blocks[cb].invalid = Some(format!("c04 probe: {}", want.clone().unwrap_err()));
+            self.w.blocks[cb].chain_valid = false;
+        }
+        let v = self.w.blocks[cb].view.clone();
+        if v.number() != env.number || v.epoch() != f || self.w.median_time(&st_p.chain) != env.median_ms {
+            self.res.harness_error = Some("c04: dry pass and real pass disagree on the commit position".into());
+            return;
+        }
+        self.now = self.now.max(v.timestamp());
+        self.ft.set_faketime(self.now);
+        let got = self.deliver(&v);
+        self.ev(&format!("probe_block {:?} want={:?} got={:?}", cand, want, got));
+        self.res.probes.inc(if want.is_ok() { "c04_block_probe_valid" } else { "c04_block_probe_invalid" });
+        if let Err(w) = &want {
+            self.res.probes.inc(&format!("c04_block:{w}"));
+        }
+        self.res.nontrivial = true;
+        match (&want, &got) {
+            (Ok(()), Some(Err(e))) => self.viol("C04", &format!("block_rejects_valid_tx:{}", cand_dim(cand)), format!("block n={} committing probe {:?} (position number {}, epoch {:?}, parent median {}) meets every rule but is rejected: {}", v.number(), cand, env.number, env.epoch, env.median_ms, e)),
+            (Err(w), Some(Ok(_))) => self.viol("C04", &format!("block_accepts_invalid_tx:{w}"), format!("block n={} committing probe {:?} breaks the rule '{}' (position number {}, epoch {:?}, parent median {}) but is accepted", v.number(), cand, w, env.number, env.epoch, env.median_ms)),
+            (_, None) => {
+                if self.res.violation.is_none() {
+                    self.res.harness_error = Some("no verdict for a probe block".into())
+                }
+            }
+            _ => {}
+        }
     }
 
     fn dump(&mut self) -> PoolDump {
